@@ -1,7 +1,8 @@
 // hx: verification harness for /repo (plgd-dev/go-coap). Built with -tags verif
 // from the current working tree of /repo. Sub-commands:
-//   hx gen --out DIR                      regenerate coq/theories/Gen/*.v
-//   hx <Cxx> --tier T --seed S --out DIR [--only DESC]   run the implementation and write Coq case shards
+//
+//	hx gen --out DIR                      regenerate coq/theories/Gen/*.v
+//	hx <Cxx> --tier T --seed S --out DIR [--only DESC]   run the implementation and write Coq case shards
 package main
 
 import (
